@@ -99,7 +99,7 @@ def main():
             thms = core.load_theorems(prop)
             audit = {"ok": True, "problems": [], "obligations": len(thms), "discharged": len(thms), "theorems": thms}
         else:
-            audit = core.build_and_audit(prop)
+            audit = core.build_and_audit(prop, a.tier)
         with core.quiet():
             core.assert_repo()
         mod = importlib.import_module(f"props.{prop.lower()}")
